@@ -175,17 +175,35 @@ Definition c07_ok : bool :=
 (* ---------- C09 ---------- *)
 Fixpoint nodupz (l : list Z) : bool :=
   match l with [] => true | x :: r => negb (existsb (Z.eqb x) r) && nodupz r end.
+(* fail-fast (Lift) inside a fork stage with a failing element among those handed over: which elements are still
+   processed after the first failure depends on the schedule, so the deliveries are only bounded by what the
+   try-and-continue variant would deliver (each result / error at most once), at most one error per worker *)
+Definition fork_failfast : bool :=
+  match st with
+  | SFork (SMap _ fl false) _ _ | SFork (SFMap _ fl false) _ _ =>
+      match first_fail fl (sent_on 0 ms) with Some _ => true | None => false end
+  | _ => false
+  end.
+Definition try_variant (s : stage_code) : stage_code :=
+  match s with SMap f fl _ => SMap f fl true | SFMap m fl _ => SFMap m fl true | s' => s' end.
+Definition fork_par : nat := match st with SFork _ n _ => n | _ => 1%nat end.
+Definition c09_bound (k : nat) : list Z :=
+  if fork_failfast then image (try_variant inner_stage) k (sent_on 0 ms) else expected k.
 Definition c09_ok : bool :=
   negb (crashed c) &&
-  forallb (fun k => submset (rcvd_on k ms) (expected k)) (seq 0 nobs) &&
+  forallb (fun k => submset (rcvd_on k ms) (c09_bound k)) (seq 0 nobs) &&
+  (if fork_failfast then Nat.leb (length (rcvd_on 1 ms)) fork_par else true) &&
   (if has_fun then submset (calls c) (sent_on 0 ms) && nodupz (calls c) else true) &&
   (if negb cancelled_run && inputs_closed then
      outputs_closed ms &&
-     forallb (fun k => perm_eqb (rcvd_on k ms) (expected k)) (seq 0 nobs) &&
-     (if has_fun then perm_eqb (calls c) (sent_on 0 ms) else true)
+     (if fork_failfast then negb (Nat.eqb (length (rcvd_on 1 ms)) 0)
+      else forallb (fun k => perm_eqb (rcvd_on k ms) (expected k)) (seq 0 nobs) &&
+           (if has_fun then perm_eqb (calls c) (sent_on 0 ms) else true))
    else true) &&
   (if inputs_closed && outputs_closed (before_end ms) then Nat.eqb live_at_end 0 else true) &&
-  (if cancelled_run && inputs_closed && outputs_closed (before_end ms) then outputs_closed ms else true).
+  (if cancelled_run && inputs_closed && outputs_closed (before_end ms) then outputs_closed ms else true) &&
+  (* cancel + input closed + every in-flight call released: everything exits and closes although nobody receives *)
+  (if cancelled_run && inputs_closed && N.eqb (sched c) 3 then Nat.eqb live_at_end 0 && outputs_closed ms else true).
 
 (* ---------- C11 ---------- *)
 Definition emit_params : option (N * fcode * failcode * bool) :=
